@@ -50,7 +50,42 @@ type script struct {
 	// NoLength: the response announces no length (chunked or close-delimited: net/http reports ContentLength -1) -
 	// after C14-s14
 	NoLength bool `json:"no_length,omitempty"`
+	// Endless: after the scripted bytes the body goes on without end (blanks, which neither a text excerpt nor an XML
+	// document is changed by) until it is closed - a server that keeps sending after an error (after C14-s17). Only
+	// scripted with non-2xx statuses, where the client has all it needs after the excerpt or the DAV:error document.
+	// A client that has taken endlessCap further bytes is counted as one that never returns.
+	Endless bool `json:"endless,omitempty"`
 }
+
+const endlessCap = 64 << 20
+
+type endlessBody struct {
+	data     []byte
+	extra    int64
+	closed   bool
+	overread *bool
+}
+
+func (b *endlessBody) Read(p []byte) (int, error) {
+	if b.closed {
+		return 0, fmt.Errorf("http: read on closed response body")
+	}
+	if len(b.data) > 0 {
+		n := copy(p, b.data)
+		b.data = b.data[n:]
+		return n, nil
+	}
+	if b.extra >= endlessCap {
+		*b.overread = true
+		return 0, fmt.Errorf("harness: %d bytes past the scripted body were read, giving up", b.extra)
+	}
+	for i := range p {
+		p[i] = ' '
+	}
+	b.extra += int64(len(p))
+	return len(p), nil
+}
+func (b *endlessBody) Close() error { b.closed = true; return nil }
 
 type brokenBody struct {
 	data []byte
@@ -67,7 +102,10 @@ func (b *brokenBody) Read(p []byte) (int, error) {
 }
 func (b *brokenBody) Close() error { return nil }
 
-type fake struct{ s script }
+type fake struct {
+	s        script
+	overread bool
+}
 
 func (f *fake) Do(req *http.Request) (*http.Response, error) {
 	if req.Body != nil {
@@ -85,6 +123,10 @@ func (f *fake) Do(req *http.Request) (*http.Response, error) {
 	cl := int64(len(b))
 	if f.s.NoLength {
 		cl = -1
+	}
+	if f.s.Endless {
+		return &http.Response{StatusCode: f.s.Status, Status: fmt.Sprintf("%d %s", f.s.Status, http.StatusText(f.s.Status)), Proto: "HTTP/1.1", ProtoMajor: 1, ProtoMinor: 1,
+			Header: h, Body: &endlessBody{data: b, overread: &f.overread}, ContentLength: -1, Request: req}, nil
 	}
 	if k := f.s.BodyFail; k != nil && *k < len(b) {
 		err := io.ErrUnexpectedEOF
@@ -576,9 +618,10 @@ func evaluate(c Case) (o vev.Outcome, err error) {
 		s.Body = vev.B(`<?xml version="1.0" encoding="utf-8"?>` + string(vx.Write(e, vx.Fixed(0), false)))
 	}
 	type result struct {
-		v   any
-		err error
-		pan any
+		v        any
+		err      error
+		pan      any
+		overread bool
 	}
 	ch := make(chan result, 1)
 	go func() {
@@ -589,7 +632,7 @@ func evaluate(c Case) (o vev.Outcome, err error) {
 			}
 			ch <- r
 		}()
-		f := &fake{s}
+		f := &fake{s: s}
 		defer clientsOf.Delete(webdav.HTTPClient(f))
 		if c.Warm != "" {
 			f.s = warmScript(m, c.Warm)
@@ -597,6 +640,7 @@ func evaluate(c Case) (o vev.Outcome, err error) {
 			f.s = s
 		}
 		r.v, r.err = m.call(context.Background(), f)
+		r.overread = f.overread
 	}()
 	var r result
 	timer := time.NewTimer(20 * time.Second)
@@ -605,6 +649,9 @@ func evaluate(c Case) (o vev.Outcome, err error) {
 	case r = <-ch:
 	case <-timer.C:
 		return dev(m.name+"|hang", "%s did not return within 20 s although the transport answered immediately (status %d, %d body bytes)", m.name, s.Status, len(s.Body)), nil
+	}
+	if r.overread {
+		return dev(m.name+"|hang|endless-error-body", "%s kept reading the body of a status %d response (%d scripted bytes, then %d MiB more) instead of returning its error: against a server that goes on sending it never returns", m.name, s.Status, len(s.Body), endlessCap>>20), nil
 	}
 	if r.pan != nil {
 		return dev(m.name+"|panic", "%s panicked on status %d body %.200q: %v", m.name, s.Status, string(s.Body), r.pan), nil
@@ -986,6 +1033,11 @@ func TestStatusMatrix(t *testing.T) {
 				c.Script.NoLength = true
 				run(t, nil, c, fmt.Sprintf("matrix-no-length/%dxx", code/100))
 				c.Script.NoLength = false
+				if code/100 != 2 && (code%5 == k || code < 110) {
+					c.Script.Endless = true
+					run(t, nil, c, fmt.Sprintf("matrix-endless-body/%dxx", code/100))
+					c.Script.Endless = false
+				}
 				c.Warm = []string{"ok", "error"}[(code+k)%2]
 				run(t, nil, c, fmt.Sprintf("matrix-second-call/%dxx", code/100))
 				c.Warm = ""
